@@ -198,8 +198,13 @@ namespace vh {
     static void dump_trace_file();
     extern bool g_gdb_on_fail;
 
+    char const* heapq_first_dirty();
+    void heapq_enable(bool on);
+    uint64_t heapq_count();
+
     [[noreturn]] void violation(char const* cls, char const* f, ...)
     {
+        heapq_enable(false);
         char buf[4096];
         va_list ap;
         va_start(ap, f);
@@ -216,6 +221,11 @@ namespace vh {
     [[noreturn]] void finish_ok()
     {
         if (g_reporting) _exit(4);
+        // memory released through operator delete during the run has been kept aside, filled with a pattern
+        if (char const* dirty = heapq_first_dirty())
+            violation((g_ctx->prop + ".heap.write_after_release").c_str(), "%s", dirty);
+        heapq_enable(false);
+        probe("heap.blocks_quarantined", heapq_count());
         g_reporting = true;
         emit_result("ok", "", "");
         _exit(0);
@@ -275,6 +285,7 @@ namespace vh {
 
     static void on_sim_fail(char const* cls, char const* msg)
     {
+        heapq_enable(false);
         if (g_reporting) _exit(4);
         g_reporting = true;
         if (g_gdb_on_fail) gdb_dump();
@@ -306,6 +317,7 @@ namespace vh {
 
     static void on_signal(int sig, siginfo_t* si, void*)
     {
+        heapq_enable(false);
         if (g_in_dump) siglongjmp(g_dump_jmp, 1);
         if (g_reporting) _exit(4);
         g_reporting = true;
@@ -347,6 +359,7 @@ namespace vh {
 
     static void on_terminate()
     {
+        heapq_enable(false);
         if (g_reporting) _exit(4);
         g_reporting = true;
         if (g_gdb_on_fail) gdb_dump();
@@ -421,6 +434,7 @@ namespace vh {
     void begin_sim(RunCtx& ctx, sim_config const& cfg)
     {
         g_ctx = &ctx;
+        heapq_enable(true);
         std::set_terminate(on_terminate);
         install_crash_handlers();
         sim_set_fail_handler(on_sim_fail);
